@@ -28,7 +28,7 @@ CHECKS = {
          "Constant over every attribute form (8 names + unknown + wrong count), `value` in all 11 element types x both encodings x shapes of rank 0..2; ConstantOfShape over value absent / each type / wrong element counts x every shape operand of rank 1..4; Cast over all 100 numeric pairs x all in-range values of an alphabet that is complete for 8/16-bit sources and hits every power-of-two boundary and rounding tie for wider ones; results must be bit-exact with the right element type, unsupported forms must be refused with an error.",
          E1NOTE, "DESIGN.md §3 C11"),
  "C04": ("exploration", "E1", "bounded-exhaustive enumeration of rank combinations / batch-shape pairs / transpose flags / alpha-beta / bias shapes on the real operators vs float64 loop reference with dot-product error bound",
-         "MatMul over every pair of batch shapes (rank 0..2 quick, 0..3 thorough; broadcastable and not) x (m,k,n) in {1,2,3}^3 x vector promotion on either side; Gemm over all 4 transpose combinations x 5 (alpha,beta) pairs x (M,K,N) x 11 bias shapes (valid and invalid); LinearRegressor and Scaler over targets/features/batch/intercept/offset layouts; shape, dtype and every element within the dot-product rounding bound gamma_(2k+4)*sum|a_i b_i|; mismatches must be refused. A discrimination self-check verifies that the fills separate true semantics from swapped transpose flags / swapped alpha,beta.",
+         "MatMul over every pair of batch shapes (rank 0..2 quick, 0..3 thorough; broadcastable and not) x (m,k,n) in {1,2,3}^3 x vector promotion on either side; Gemm over all 4 transpose combinations x 20 (alpha,beta) pairs x (M,K,N) x 11 bias shapes (valid and invalid); LinearRegressor and Scaler over targets/features/batch/intercept/offset layouts; shape, dtype and every element within the dot-product rounding bound gamma_(2k+4)*sum|a_i b_i|; mismatches must be refused. A discrimination self-check verifies that the fills separate true semantics from swapped transpose flags / swapped alpha,beta.",
          E1NOTE, "DESIGN.md §3 C04"),
 }
 NA_REASON = "check not built yet in this session (see DESIGN.md §7 order of construction); decidable by bounded exhaustive exploration, to be claimed once its explorer exists"
